@@ -962,7 +962,7 @@ End Hom.
 (* the hash algebra is such an image of the terms *)
 Theorem hash_tile_at cs p : tile_hash (tile_at Base Mid cs p) = tile_at hbase hmid cs p.
 Proof.
-  exact (gmap_tile_at pt N Base Mid hbase hmid hash (fun k => eq_refl) (fun a b => eq_refl) cs p).
+  exact (gmap_tile_at pt int Base Mid hbase hmid hash (fun k => eq_refl) (fun a b => eq_refl) cs p).
 Qed.
 
 (* ------------------------------------------------------------------ routes agree *)
